@@ -1,6 +1,5 @@
 import BridgeVerif.Translated.PlayLemmasC
 /-! Translated playing phases = model: `has_done`, `__init__` (on an instance of `PlayingPhase` or of a subclass) -/
-set_option profiler true
 namespace Bridge.Translated
 open Bridge Bridge.Py Bridge.Generated.PyCore
 
@@ -62,5 +61,31 @@ theorem getAttr_contract_trump (f : Nat) (c : Contract) :
   | some b =>
     ppsimp [Contract.trump, h, encContract, pp_beq_encBid_none, getAttr_suit]
 
+
+/-- `PlayingPhase.__init__` on a fresh instance of class `k` -/
+theorem init_call (f : Nat) (k : Id) (c : Contract) :
+    callF (mkRec P (f+40)) m_PlayingPhase___init__ [.obj k [], encContract c] =
+      match c.finalBid, c.declarer with
+      | none, _ => .error (.exc K.Exception)
+      | some _, none => .error (.exc K.AssertionError)
+      | some b, some d => .ok (.none, ppObj k c
+          { trump := bidDenom b, declarer := d, dummy := d.partner, leader := d.left, active := d.left,
+            trick := [], trickNum := 1, history := [], used := [], takenNS := 0, takenEW := 0 } []) := by
+  rw [callF_def]
+  simp only [m_PlayingPhase___init__, bindParams, Option.map]
+  cases hfb : c.finalBid with
+  | none =>
+    ppsimp [meth_encContract, mth_is_passed_out, is_passed_out_call, hfb]
+  | some b =>
+    cases hd : c.declarer with
+    | none =>
+      ppsimp [meth_encContract, mth_is_passed_out, is_passed_out_call, hfb, getAttr_contract_trump, Contract.trump,
+        getAttr_contract_declarer, hd, beq_encSuit_none]
+    | some d =>
+      ppsimp [meth_encContract, mth_is_passed_out, is_passed_out_call, hfb, getAttr_contract_trump, Contract.trump,
+        getAttr_contract_declarer, hd, beq_encSuit_none, beq_encSeat_none, getAttr_partner, getAttr_next,
+        construct_history, ↓eval_taken_dict, builtin_tuple_nil, builtin_set_nil, ppObj, baseFields, encCards, encHistory,
+        List.reverse_nil, List.map_nil]
+      rfl
 
 end Bridge.Translated
